@@ -457,7 +457,10 @@ where
     let parent_encoded_len = wincode::serialized_size(&parent)
         .expect("computing serialized size of parent should not fail")
         as usize;
-    let buffer_space = MAX_DATA_PER_SLICE - parent_encoded_len - 8;
+    // NOTE: During optimistic block production a parent may still be set on this payload
+    // after it was filled (see `apply_parent_ready`), so always leave room for one.
+    const MAX_PARENT_ENCODED_LEN: usize = 1 + 8 + 32;
+    let buffer_space = MAX_DATA_PER_SLICE - parent_encoded_len.max(MAX_PARENT_ENCODED_LEN) - 8;
     let mut buffer = Vec::<u8>::with_capacity(buffer_space);
     let mut tx_count = 0u64;
     // reserve space for the length prefix
